@@ -164,6 +164,8 @@ static void verif_dealloc(void* p)
 void* verif_rt__Znwm(u64 n) { return verif_alloc(n); }
 void* verif_rt__Znam(u64 n) { return verif_alloc(n); }
 void* verif_rt__ZnwmSt11align_val_t(u64 n, u64 a) { return verif_alloc(n); }
+void* verif_rt__ZnamSt11align_val_t(u64 n, u64 a) { return verif_alloc(n); }
+void verif_rt__ZdaPvSt11align_val_t(void* p, u64 a) { verif_dealloc(p); }
 void verif_rt__ZdlPv(void* p) { verif_dealloc(p); }
 void verif_rt__ZdaPv(void* p) { verif_dealloc(p); }
 void verif_rt__ZdlPvm(void* p, u64 n) { verif_dealloc(p); }
